@@ -79,8 +79,10 @@ func (c *compiler) expandExpression(expr []token, line int) ([]token, error) {
 	input := expr
 	var output []token
 
-	for !exprEqual(input, output) {
-		if len(output) > 0 {
+	// substitute until nothing changes; a substitution may leave nothing at
+	// all (a name defined with an empty value), which is a fixed point too
+	for first := true; first || !exprEqual(input, output); first = false {
+		if !first {
 			input = output
 		}
 
